@@ -219,3 +219,45 @@ contract(TB, 'TypeBlocks.__copy__',
     ensures=['Dir(result)', 'Frozen(result)', 'result._shape == self._shape', 'len(result._blocks) == len(self._blocks)',
              'forall_in(0, len(self._blocks), lambda k: at(result._blocks, k) == at(self._blocks, k))',
              'result._index == self._index and result._dtypes == self._dtypes'])
+
+
+# TypeBlocks.consolidate_blocks: adjacent blocks are joined into one array only when their dtypes are the SAME (C07: "no lossy coercion" -- the joined array is cast to
+# the dtype of the group's first block, so a block of another dtype, however similar, would be cast silently).  The join itself (_concatenate_blocks) is a local call
+# whose PRECONDITION is the obligation: every block handed over has the dtype it is told to produce.
+contract(TB, 'TypeBlocks.consolidate_blocks',
+    props=['C07', 'C03'],
+    params=dict(cls='elem', raw_blocks='list[arr]'), order=['cls', 'raw_blocks'],
+    is_generator=True, yield_sort='arr',
+    calls={'cls._concatenate_blocks': dict(params=dict(group='list[arr]', dtype='dtype'), order=['group', 'dtype'], result='arr',
+                                           requires=['len(group) >= 2', 'forall_in(0, len(group), lambda k: at(group, k).dtype == dtype)'],
+                                           ensures=['result.dtype == dtype and result.ndim == 2'])},
+    ghost_init=['seen = 0'],
+    n_loops=1,
+    loops={0: dict(index='t', locals=dict(group='list[arr]', group_dtype='opt[dtype]', seen='int'), ghost_mods=['seen'], invariant=[
+        'implies(is_none(group_dtype), len(group) == 0 and t == 0)',
+        'implies(not is_none(group_dtype), len(group) >= 1 and forall_in(0, len(group), lambda k: at(group, k).dtype == group_dtype))',
+        # the current group is exactly the run of blocks ending at the block before t
+        'len(group) <= t and forall_in(0, len(group), lambda k: at(group, k) == at(raw_blocks, t - len(group) + k))',
+    ])},
+    concrete_inputs='specs.t2_arrays:concrete_inputs_consolidate', witness_on_unknown=True, witness_always=True, requires_concrete=[],
+    at_yield_concrete=['True'], at_exit_concrete=['ref_consolidate(raw_blocks, yields)'],
+    at_yield=['True'], yield_update=['seen = seen + 1'], at_exit=['True'])
+
+
+def concrete_inputs_consolidate(model):
+    """adjacent blocks of the same kind and width but different dtype (datetime64 / timedelta64 units, int64 / uint64), and of equal dtype"""
+    import numpy as np
+    from static_frame.core.type_blocks import TypeBlocks
+    y = np.array(['2019', '2020'], dtype='datetime64[Y]')
+    d = np.array(['2020-05-17', '2021-01-02'], dtype='datetime64[D]')
+    ns = np.array(['2020-05-17T01:02:03.000000004', '2021-01-02'], dtype='datetime64[ns]')
+    i = np.array([1, -2], dtype=np.int64)
+    u = np.array([2 ** 63, 3], dtype=np.uint64)
+    f = np.array([1.5, np.nan])
+    td, th = np.array([1, 2], dtype='timedelta64[D]'), np.array([1, 2], dtype='timedelta64[h]')
+    out = []
+    for blocks in ([y, d], [d, ns, d], [y, y, d], [i, u], [u, i, i], [f, f, i], [td, th], [i, i], [np.stack([i, i], axis=1), i, f]):
+        for b in blocks:
+            b.flags.writeable = False
+        out.append(dict(cls=TypeBlocks, raw_blocks=blocks))
+    return out
